@@ -80,13 +80,68 @@ func newRig() *rig {
 		for i, v := range call.ArgumentList {
 			parts[i] = harness.Repr(v)
 		}
-		r.trace = append(r.trace, strings.Join(parts, "|"))
-		// an effect committed before any later abnormal exit: must still be there afterwards
-		call.Otto.Set("__hostcalls", len(r.trace))
-		if r.hostFail > 0 && len(r.trace) == r.hostFail {
-			panic(hostPanic{r.hostFail})
-		}
+		r.record(call, strings.Join(parts, "|"))
 		return otto.UndefinedValue()
+	})
+	// host functions that convert or call back into script code from Go: an interrupt (or a host panic)
+	// arriving while that nested script code runs must unwind through the Go frames as well
+	host := func(name string, fn func(call otto.FunctionCall) string) {
+		r.vm.Set(name, func(call otto.FunctionCall) otto.Value {
+			res := fn(call)
+			r.record(call, name+"="+res)
+			v, _ := otto.ToValue(res)
+			return v
+		})
+	}
+	errName := func(err error) string {
+		if err == nil {
+			return ""
+		}
+		return "!" + harness.ErrName(err)
+	}
+	host("hstr", func(call otto.FunctionCall) string { return call.Argument(0).String() })
+	host("htostring", func(call otto.FunctionCall) string { s, err := call.Argument(0).ToString(); return s + errName(err) })
+	host("hnum", func(call otto.FunctionCall) string {
+		f, err := call.Argument(0).ToFloat()
+		return harness.NumRepr(f) + errName(err)
+	})
+	host("hint", func(call otto.FunctionCall) string {
+		n, err := call.Argument(0).ToInteger()
+		return strconv.FormatInt(n, 10) + errName(err)
+	})
+	host("hexport", func(call otto.FunctionCall) string {
+		x, err := call.Argument(0).Export()
+		if m, ok := x.(map[string]interface{}); ok {
+			return "map:" + strconv.Itoa(len(m)) + errName(err)
+		}
+		return fmt.Sprintf("%T", x) + errName(err)
+	})
+	host("hjson", func(call otto.FunctionCall) string {
+		b, err := call.Argument(0).MarshalJSON()
+		return string(b) + errName(err)
+	})
+	host("hcall", func(call otto.FunctionCall) string {
+		v, err := call.Argument(0).Call(otto.UndefinedValue(), call.Argument(1))
+		return harness.Repr(v) + errName(err)
+	})
+	host("hget", func(call otto.FunctionCall) string {
+		o := call.Argument(0).Object()
+		if o == nil {
+			return "notobject"
+		}
+		v, err := o.Get(call.Argument(1).String())
+		return harness.Repr(v) + errName(err)
+	})
+	host("hset", func(call otto.FunctionCall) string {
+		o := call.Argument(0).Object()
+		if o == nil {
+			return "notobject"
+		}
+		return errName(o.Set(call.Argument(1).String(), call.Argument(2)))
+	})
+	host("hottocall", func(call otto.FunctionCall) string {
+		v, err := call.Otto.Call(call.Argument(0).String(), nil, call.Argument(1))
+		return harness.Repr(v) + errName(err)
 	})
 	if _, err := r.vm.Run("function __battery() { return " + battery + " }"); err != nil {
 		panic(err)
@@ -94,6 +149,16 @@ func newRig() *rig {
 	r.vm.Interrupt = make(chan func(), 1)
 	r.vm.Interrupt <- r.fire
 	return r
+}
+
+// record appends one host call to the trace, commits an effect that must survive any later abnormal
+// exit, and panics if this is the host call chosen to fail.
+func (r *rig) record(call otto.FunctionCall, entry string) {
+	r.trace = append(r.trace, entry)
+	call.Otto.Set("__hostcalls", len(r.trace))
+	if r.hostFail > 0 && len(r.trace) == r.hostFail {
+		panic(hostPanic{r.hostFail})
+	}
 }
 
 func (r *rig) fire() {
@@ -373,6 +438,18 @@ var templates = []struct{ family, src string }{
 	{"callback", `[2,1].sort(function(a,b){ log("cmp"); while(true); })`},
 	{"callback", `"ab".replace(/a/,function(){ log("in"); for(;;); })`},
 	{"callback", `function F(){ log("F"); this.x=1 } var f=F.bind(null); log(new f().x); log(F.call({},1), F.apply({},[1]))`},
+	{"host-conversion", `var o={toString:function(){ log("ts"); for(var i=0;i<%N;i++){} return "s" }, valueOf:function(){ log("vo"); for(var i=0;i<%N;i++){} return 4 }}; log(hstr(o)); log(htostring(o)); log(hnum(o), hint(o)); log("after")`},
+	{"host-conversion", `var o={toString:function(){ log("ts"); for(var i=0;i<%N;i++){} return "s" }}; console.log(o, 1, o); log("after")`},
+	{"host-conversion", `var o={toString:function(){ log("in"); for(;;){} }}; console.log(o); log("never")`},
+	{"host-conversion", `var o={toString:function(){ log("in"); for(;;){} }}; hstr(o); log("never")`},
+	{"host-conversion", `var o={valueOf:function(){ log("in"); while(true); }}; hnum(o); log("never")`},
+	{"host-conversion", `var g={get p(){ log("get"); for(var i=0;i<%N;i++){} return 1 }, set p(v){ log("set",v); for(var i=0;i<%N;i++){} }, q:{get r(){ log("inner"); return 2 }}}; log(hget(g,"p")); log(hexport(g)); log(hset(g,"p",2)); log("after")`},
+	{"host-conversion", `var g={get p(){ log("get"); for(;;); }}; hexport(g); log("never")`},
+	{"host-conversion", `var g={set p(v){ log("set"); for(;;); }}; hset(g,"p",1); log("never")`},
+	{"host-conversion", `function cb(a){ log("cb",a); for(var i=0;i<%N;i++){} return a+1 } log(hcall(cb,1)); log(hcall(function(x){ return hcall(cb,x) },5)); log(hottocall("cb",7)); log("end")`},
+	{"host-conversion", `function spin(){ log("spin"); for(;;){} } log("a"); hcall(function(){ return hottocall("spin",0) },0); log("never")`},
+	{"host-conversion", `var t={toJSON:function(){ log("tj"); for(var i=0;i<%N;i++){} return [1,{get z(){ log("z"); return 3 }}] }}; log(hjson(t)); log(hjson({a:{toString:function(){ log("no"); return "" }}})); log("end")`},
+	{"host-conversion", `var o={toString:function(){ log("ts"); throw new RangeError("r") }, valueOf:function(){ log("vo"); return {} }}; log(hstr(o)); log(htostring(o)); log(hnum(o)); log(hcall(function(){ null.x },0)); console.log(o); log("after")`},
 	{"with-label", `var o={p:1,q:2}; with(o){ L: for(var i=0;i<%N;i++){ log(p,q,i); if(i==1) continue L; p++ } } log(o.p)`},
 	{"with-label", `A: { B: { log("in"); with({z:1}) { log(z); break A } } log("no") } log("out")`},
 	{"try", `var x=0; while(x<%N){ try { x++; log(x) } catch(e) { log("caught") } } log("end",x)`},
@@ -387,7 +464,7 @@ var templates = []struct{ family, src string }{
 
 var injectFacet = harness.Register(&harness.Facet[injectCase]{
 	Name:     "interrupt-at-every-step",
-	Rule:     "rapid: a program (templates covering empty-bodied loops of every form, bounded loops, recursion, callbacks inside sort/forEach/map/reduce/filter/replace/JSON/getters/valueOf, with, labels, try/finally, eval; or a program from the semantic generator) is submitted through one of the public entry points (Run, Eval, Otto.Call, Value.Call) and first run with a counting interrupt function that records the host-call trace length at every polling step; then for EVERY step k (all when ≤120 polls, else first/last 25 plus drawn positions) a fresh runtime runs it with an interrupt function that panics at step k. Oracle: Run panics with exactly that value, the trace equals the reference prefix recorded at k, scope depth and pending labels are 0, a global written before each host call still has its value, and a fixed battery (labels, try/finally, with, recursion, switch, sort) gives its normal result on the same runtime. Non-trivial = the program makes host calls and contains a function or comes from a template; distinct by (program, picks)",
+	Rule:     "rapid: a program (templates covering empty-bodied loops of every form, bounded loops, recursion, callbacks inside sort/forEach/map/reduce/filter/replace/JSON/getters/valueOf, script code entered from Go inside host functions and console.log (Value.String/ToString/ToFloat/ToInteger/Export/MarshalJSON/Call, Object.Get/Set, Otto.Call on objects with script toString/valueOf/getters/setters/toJSON), with, labels, try/finally, eval; or a program from the semantic generator) is submitted through one of the public entry points (Run, Eval, Otto.Call, Value.Call) and first run with a counting interrupt function that records the host-call trace length at every polling step; then for EVERY step k (all when ≤120 polls, else first/last 25 plus drawn positions) a fresh runtime runs it with an interrupt function that panics at step k. Oracle: Run panics with exactly that value, the trace equals the reference prefix recorded at k, scope depth and pending labels are 0, a global written before each host call still has its value, and a fixed battery (labels, try/finally, with, recursion, switch, sort) gives its normal result on the same runtime. Non-trivial = the program makes host calls and contains a function or comes from a template; distinct by (program, picks)",
 	Quick:    260,
 	Thorough: 2500,
 	Gen: func(t *rapid.T) injectCase {
